@@ -11,12 +11,12 @@ CONSTANTS
   MaxElect = 1
   MaxCrash = 0
   MaxIsrOps = 2
-  MaxRejects = 1
+  MaxRejects = 2
   Policies = {"ALL", "LEADER", "NONE"}
   UseCheckpoint = FALSE
   Batch = 2
   IgnoreTaints = FALSE
-INVARIANTS Inv_CommittedSurvives Inv_NoDivergence Inv_Nacked Inv_Struct
+INVARIANTS Inv_CommittedSurvives Inv_NoDivergence Inv_HWBacked Inv_Nacked Inv_Struct
 PROPERTIES AcksOK HWMono
 VIEW MCView
 CHECK_DEADLOCK FALSE
